@@ -12,6 +12,7 @@ import (
 var monitors = map[string]func(*core.Child){
 	"c02": codec.C02,
 	"c03": codec.C03,
+	"c12": codec.C12,
 }
 
 func main() { core.ChildMain(monitors) }
